@@ -63,7 +63,9 @@ func VerifC17NewControl(npre, nsamp int) (*VerifC17Control, error) {
 				sc.totalData.DataMB += h.DataMB
 				sc.totalData.Time += h.Time
 				sc.totalData.Running = h.Running
-				if n++; n%8 == 0 {
+				// RunRPCServer broadcasts every two seconds; doing it often would add synchronisation
+				// (the slots of clientMessageChan) that the real program does not have
+				if n++; n%512 == 0 {
 					sc.broadcastHeartbeat()
 				}
 			}
